@@ -802,17 +802,13 @@ impl<'a, EntryType: Entry> PathSolution<'a, EntryType> {
                 .expect("valid path encoding should always produce a valid view"),
         );
 
-        let start_ia = interfaces
-            .first()
-            .expect("edges are checked to be not empty")
-            .interface
-            .isd_asn;
-
-        let end_ia = interfaces
-            .last()
-            .expect("edges are checked to be not empty")
-            .interface
-            .isd_asn;
+        // Segments whose hop fields name no interface at all (all interface ids zero) cannot
+        // form a usable path.
+        let (Some(first), Some(last)) = (interfaces.first(), interfaces.last()) else {
+            return Ok(None);
+        };
+        let start_ia = first.interface.isd_asn;
+        let end_ia = last.interface.isd_asn;
 
         let metadata = PathMetadata {
             expiration: expiration.into(),
